@@ -78,6 +78,18 @@ def _run_one(sim, params):
     import nfc.handover
     import nfc.llcp
     k = kernel.Kernel(sim, preempt_p=sim.pick("preempt", [0.0, 0.0, 0.02]), max_steps=3000000, max_sim_s=600.0)
+    if sim.chance("slow.apps", 0.45):
+        # applications that lag behind the link: the service and client threads are descheduled (stalled in virtual time)
+        # between their socket calls, so that receive windows fill up while the link goes on delivering
+        import nfc.snep.server
+        import nfc.snep.client
+        import nfc.handover.server
+        import nfc.handover.client
+        k.enable_line_preemption([nfc.snep.server, nfc.snep.client, nfc.handover.server, nfc.handover.client], 0.0)
+        hp = sim.pick("slow.p", [0.2, 0.5])
+        k.line_hot = dict((fn, hp) for fn in ("_serve", "serve", "recv_response", "recv_octets", "recv_records",
+                                              "send_request", "send_octets"))
+        sim.probe("slow_applications")
     net = simnet.SimNet(k, ["A", "B"], latency=sim.pick("latency", [0.0005, 0.002]))
     simnet.install(nfc, net)
     net.start()
